@@ -117,6 +117,28 @@ Theorem C11_overlap_shared_object_refuted :
 Proof. exact shared_object_refuted. Qed.
 Print Assumptions C11_overlap_shared_object_refuted.
 
+(* The inbound side: a client that writes its authorization request in the standard
+   encoding (url.Values.Encode) is never refused for the encoding and the provider
+   reads exactly the parameters written - the state among them - whether the
+   request is a GET (query) or a POST (urlencoded body); the decoder's reading of a
+   field does not depend on Encode's sorting as long as no other parameter name
+   differs from the field's name by case only (see Fxx-C11-2 below). *)
+Theorem C11_inbound_standard_encoding : forall l,
+  inbound_form false (values_encode l) "" = Some (sort_pairs l)
+  /\ inbound_form true "" (values_encode l) = Some (sort_pairs l)
+  /\ forall k, fold_lower k = k ->
+       (forall p, In p l -> fold_lower (fst p) = k -> fst p = k) ->
+       field_value k (sort_pairs l) = field_value k l.
+Proof. exact inbound_standard_encoding. Qed.
+Print Assumptions C11_inbound_standard_encoding.
+
+(* Fxx-C11-2 (recorded, open): the form decoder matches parameter names with
+   strings.EqualFold; a request without state but with a parameter "State" is
+   answered with state = that value. *)
+Theorem C11_inbound_key_case_refuted : exists i, spec i (model i) = false.
+Proof. exact inbound_key_case_refuted. Qed.
+Print Assumptions C11_inbound_key_case_refuted.
+
 (* F23 (recorded, open): form_post with a custom-scheme redirect URI posts to
    "#ZgotmplZ", not to the redirect URI. *)
 Theorem C11_form_post_custom_scheme_refuted : exists i, spec i (model i) = false.
